@@ -2,6 +2,8 @@
 C17 — property theorems, secure messaging (btok_sm.c).  Model: ModelSM.lean.
 -/
 import Bee2V.C17.LemmasSM
+import Bee2V.C17.LemmasResp
+import Bee2V.C17.LemmasCmd
 namespace Bee2V.C17
 open Bee2V.C01 (leNat Cipher)
 open Bee2V.C08 (Cmd Resp)
@@ -172,5 +174,223 @@ theorem unwrap_refused_none (C : Cipher) (apdu : Bytes) (st : SmSt) :
       · split
         · simp
         · split <;> simp
+
+/-! ### round trips -/
+
+/-- RESPONSES: every response btokSMRespWrap accepts (rdf_len 0..65536, even counter) is recovered unchanged by
+btokSMRespUnwrap of a peer with the same keys and counter; the format-only call announces the right size; the
+length probe of Wrap announces the real length.  For every cipher with 16-octet blocks (belt: C01). -/
+theorem resp_roundtrip (C : Cipher) (hC : CipherOK C) (resp : Resp) (st : SmSt) (hctr : st.ctr.length = 16)
+    (apdu : Bytes) (h : smRespWrap C resp st = (.ok, apdu)) :
+    smRespUnwrap C apdu st = (.ok, some resp) ∧ smRespUnwrapFmt apdu = (.ok, resp.rdf.length) ∧
+    (smRespWrapLen resp) = (.ok, apdu.length) := by
+  have hc := smRespWrap_code' C resp st
+  rw [h] at hc
+  have hv : resp.rdf.length ≤ 65536 := by
+    by_cases h1 : resp.rdf.length > 65536
+    · rw [if_pos h1] at hc; cases hc
+    · omega
+  have hpar : ctrParity st = 0 := by
+    have : ¬ resp.rdf.length > 65536 := by omega
+    rw [if_neg this] at hc
+    by_cases h3 : ctrParity st ≠ 0
+    · rw [if_pos h3] at hc; cases hc
+    · simpa using h3
+  have hval : apduRespIsValid resp = true := by simp [apduRespIsValid, respRdfMax_eq, hv]
+  have hap : apdu = f87 C st resp.rdf ++ [0x8E, 8] ++ mac3 C st.key1 (f87 C st resp.rdf) [resp.sw1] [resp.sw2] ++
+      [resp.sw1, resp.sw2] := by
+    unfold smRespWrap at h
+    simp only [hval, parRespWrap_eq, hpar, Bool.not_true, Bool.false_eq_true, if_false, ne_eq, not_true_eq_false,
+      Prod.mk.injEq, true_and] at h
+    rw [← h, tl_8E_8]
+  obtain ⟨h1, h2, h3⟩ := resp_roundtrip_core C hC resp.sw1 resp.sw2 resp.rdf st hctr hv hpar
+  rw [← hap] at h1 h2 h3
+  refine ⟨h1, h2, ?_⟩
+  unfold smRespWrapLen
+  simp only [hval, Bool.not_true, Bool.false_eq_true, if_false, h3, Prod.mk.injEq, true_and, tl_8E_8]
+  unfold f87
+  by_cases hn : resp.rdf.length = 0
+  · simp [hn]
+  · have := (sm_cfb C hC st hctr resp.rdf).2
+    simp [hn, this]; omega
+example : (smRespWrap ⟨fun _ x => x, fun _ x => x⟩ ⟨0x90, 0, [1, 2, 3]⟩ ⟨[], [], List.replicate 16 0⟩).1 = .ok ∧
+    (smRespWrap ⟨fun _ x => x, fun _ x => x⟩ ⟨0x90, 0, [1, 2, 3]⟩ ⟨[], [], List.replicate 16 0⟩).2.length = 18 := by
+  decide +kernel
+
+/-- COMMANDS: every command btokSMCmdWrap accepts for protection — every Lc/Le form, data length 0..65535 as
+long as the protected field fits the two-octet Lc* (fix-1), odd counter — is recovered unchanged by btokSMCmdUnwrap of
+a peer with the same keys and counter; the format-only call announces the right size and the length probe of Wrap
+the real length.  For every cipher with 16-octet blocks (belt: C01). -/
+theorem cmd_roundtrip (C : Cipher) (hC : CipherOK C) (cmd : Cmd) (st : SmSt) (hctr : st.ctr.length = 16)
+    (apdu : Bytes) (h : smCmdWrap C cmd st = (.ok, apdu)) :
+    smCmdUnwrap C apdu st = (.ok, some cmd) ∧ smCmdUnwrapFmt apdu = (.ok, cmd.cdf.length) ∧
+    smCmdWrapLen cmd = (.ok, apdu.length) := by
+  have hc := smCmdWrap_code' C cmd st
+  rw [h] at hc
+  by_cases h1 : Bee2V.C08.apduCmdIsValid cmd = false ∨ smBit cmd.cla = true
+  · rw [if_pos h1] at hc; cases hc
+  rw [if_neg h1] at hc
+  by_cases h2 : cdfStarLen cmd > 65535
+  · rw [if_pos h2] at hc; cases hc
+  rw [if_neg h2] at hc
+  by_cases h3 : ctrParity st ≠ 1
+  · rw [if_pos h3] at hc; cases hc
+  have hpar : ctrParity st = 1 := by simpa using h3
+  have hvalid : Bee2V.C08.apduCmdIsValid cmd = true := by
+    cases hv : Bee2V.C08.apduCmdIsValid cmd
+    · exact absurd (Or.inl hv) h1
+    · rfl
+  have hbit : smBit cmd.cla = false := by
+    cases hb : smBit cmd.cla
+    · rfl
+    · exact absurd (Or.inr hb) h1
+  have hv2 : cmd.cdf.length < 65536 ∧ cmd.rdf_len ≤ 65536 := by
+    simpa [Bee2V.C08.apduCmdIsValid] using hvalid
+  have hpre : smCmdWrapPre cmd = none := by
+    rw [smCmdWrapPre_eq, if_neg h1, if_neg h2]
+  have hap : apdu = [setSmBit cmd.cla, cmd.ins, cmd.p1, cmd.p2] ++
+      (if (starLens cmd).1 = 1 then [oct (cdfStarLen cmd)] else [0, oct (cdfStarLen cmd / 256), oct (cdfStarLen cmd)]) ++
+      (f87 C st cmd.cdf ++ f97 cmd) ++ [0x8E, 8] ++
+      mac2 C st.key1 [setSmBit cmd.cla, cmd.ins, cmd.p1, cmd.p2] (f87 C st cmd.cdf ++ f97 cmd) ++ zeros (starLens cmd).2 := by
+    unfold smCmdWrap at h
+    rw [hpre] at h
+    simp only [parCmdWrap_eq, hpar, ne_eq, not_true_eq_false, if_false, Prod.mk.injEq, true_and] at h
+    rw [← h, tl_8E_8]
+  obtain ⟨r1, r2, r3⟩ := cmd_roundtrip_core C hC cmd st hctr hv2.1 hv2.2 hbit (by omega) hpar _ rfl _ rfl apdu hap
+  refine ⟨r1, r2, ?_⟩
+  unfold smCmdWrapLen
+  rw [hpre, r3]
+example : (smCmdWrap ⟨fun _ x => x, fun _ x => x⟩ ⟨0, 0xA4, 4, 12, [1, 2, 3], 256⟩ ⟨[], [], 1 :: List.replicate 15 0⟩).1 = .ok ∧
+    (smCmdWrap ⟨fun _ x => x, fun _ x => x⟩ ⟨0, 0xA4, 4, 12, [1, 2, 3], 256⟩ ⟨[], [], 1 :: List.replicate 15 0⟩).2.length = 25 := by
+  decide +kernel
+
+/-- which commands are accepted for protection: exactly the valid unprotected ones whose protected data field
+fits Lc*, at an odd counter -/
+theorem cmdWrap_ok_iff (C : Cipher) (cmd : Cmd) (st : SmSt) :
+    (smCmdWrap C cmd st).1 = .ok ↔
+      Bee2V.C08.apduCmdIsValid cmd = true ∧ smBit cmd.cla = false ∧ cdfStarLen cmd ≤ 65535 ∧ ctrParity st = 1 := by
+  rw [smCmdWrap_code']
+  have := ctrParity_lt st
+  cases Bee2V.C08.apduCmdIsValid cmd <;> cases smBit cmd.cla <;> simp <;>
+    (by_cases h2 : 65535 < cdfStarLen cmd <;> simp [h2] <;> omega)
+
+/-- the protected data field is at most 19 octets longer than the data: every command with at most 65516 data
+octets fits (65520 when no response data is expected); longer ones are refused (fix-1) -/
+theorem cdfStarLen_le (cmd : Cmd) (h : cmd.cdf.length ≤ 65516) : cdfStarLen cmd ≤ 65535 := by
+  unfold cdfStarLen
+  rw [tl_8E_8]
+  have h3 := rdfLenLen_le cmd
+  have h87 : cmd.cdf.length ≠ 0 → (tl 0x87 (cmd.cdf.length + 1)).length ≤ 4 := by
+    intro _
+    rw [tl_87]; simp only [List.length_cons, Bee2V.C08.derLEnc_length]
+    split
+    · omega
+    · have : Bee2V.C08.octLen (cmd.cdf.length + 1) ≤ 2 := by
+        by_cases hs : cmd.cdf.length + 1 < 256
+        · rw [Bee2V.C08.octLen_small (by omega) hs]; omega
+        · rw [Bee2V.C08.octLen_r2 (by omega) (by omega)]; exact Nat.le_refl _
+      omega
+  have h2 : cmd.cdf.length ≠ 0 → rdfLenLen cmd ≤ 2 := by
+    intro hn; unfold rdfLenLen
+    split
+    · omega
+    · split
+      · omega
+      · exact Nat.le_refl _
+  by_cases hn : cmd.cdf.length ≠ 0 <;> by_cases hr : cmd.rdf_len ≠ 0
+  · rw [if_pos hn, if_pos hr, tl97_len _ (by omega)]; have := h87 hn; have := h2 hn
+    simp only [List.length_cons, List.length_nil]; omega
+  · rw [if_pos hn, if_neg hr]; have := h87 hn; simp only [List.length_cons, List.length_nil]; omega
+  · rw [if_neg hn, if_pos hr, tl97_len _ (by omega)]; simp only [List.length_cons, List.length_nil]; omega
+  · rw [if_neg hn, if_neg hr]; simp only [List.length_cons, List.length_nil]; omega
+
+/-! ### Unwrap accepts ⇔ well-formed ∧ in-parity ∧ the tag is the belt-mac of the RECEIVED protected octets -/
+
+/-- btokSMCmdUnwrap returns ERR_OK exactly when the structure parses, the counter is odd and the 8 tag octets equal
+belt-mac(key1, header ‖ protected fields) computed over the octets received.  (The counter is not under the MAC:
+replay / reordering detection is NOT claimed.) -/
+theorem cmdUnwrap_ok_iff (C : Cipher) (apdu : Bytes) (st : SmSt) :
+    (smCmdUnwrap C apdu st).1 = .ok ↔
+      ∃ p, smCmdParse apdu = .ok p ∧ ctrParity st = 1 ∧
+        (apdu.drop p.macOff).take 8 =
+          (mac2 C st.key1 (apdu.take 4) ((apdu.drop (4 + p.lcLen)).take (p.c1 + p.c2))).take ((apdu.drop p.macOff).take 8).length := by
+  rw [smCmdUnwrap_code']
+  cases hp : smCmdParse apdu with
+  | error e =>
+    have := smCmdParse_err hp
+    simp only [reduceCtorEq, false_and, exists_false, iff_false]
+    rcases this with rfl | rfl <;> simp
+  | ok p =>
+    obtain ⟨a, b, c, d, h4⟩ := take4_of_len (by have := smCmdParse_ok_len hp; omega : 4 ≤ apdu.length)
+    have hle : ((apdu.drop p.macOff).take 8).length ≤ 8 := by simp only [List.length_take]; omega
+    have hiff := mac2V_iff C st.key1 (apdu.take 4) ((apdu.drop (4 + p.lcLen)).take (p.c1 + p.c2)) _ hle
+    simp only [Except.ok.injEq, exists_eq_left']
+    by_cases h3 : ctrParity st ≠ 1
+    · rw [if_pos h3]
+      exact ⟨fun h => (by cases h), fun h => absurd h.1 h3⟩
+    · have h3' : ctrParity st = 1 := by simpa using h3
+      rw [if_neg h3]
+      cases hm : mac2V C st.key1 (apdu.take 4) ((apdu.drop (4 + p.lcLen)).take (p.c1 + p.c2)) ((apdu.drop p.macOff).take 8) with
+      | false =>
+        rw [if_pos rfl]
+        refine ⟨fun h => (by cases h), fun h => ?_⟩
+        have := hiff.mpr h.2
+        rw [hm] at this; cases this
+      | true =>
+        rw [if_neg (by simp)]
+        refine ⟨fun _ => ⟨h3', hiff.mp hm⟩, fun _ => ?_⟩
+        rw [h4]
+
+/-- ALTERATION ⇒ MAC forgery, with the witness explicit: if two protected commands are both accepted under the same
+state, carry the same 8-octet tag and differ in a MAC-covered octet (header or protected fields), then belt-mac
+collides on two different inputs under key1. -/
+theorem cmd_altered_collision (C : Cipher) (apdu apdu' : Bytes) (st : SmSt) (p p' : CmdParse)
+    (hp : smCmdParse apdu = .ok p) (hp' : smCmdParse apdu' = .ok p')
+    (hok : (smCmdUnwrap C apdu st).1 = .ok) (hok' : (smCmdUnwrap C apdu' st).1 = .ok)
+    (htag : (apdu.drop p.macOff).take 8 = (apdu'.drop p'.macOff).take 8)
+    (hlen : ((apdu.drop p.macOff).take 8).length = 8) :
+    mac2 C st.key1 (apdu.take 4) ((apdu.drop (4 + p.lcLen)).take (p.c1 + p.c2)) =
+      mac2 C st.key1 (apdu'.take 4) ((apdu'.drop (4 + p'.lcLen)).take (p'.c1 + p'.c2)) := by
+  obtain ⟨q, hq, _, h1⟩ := (cmdUnwrap_ok_iff C apdu st).mp hok
+  obtain ⟨q', hq', _, h1'⟩ := (cmdUnwrap_ok_iff C apdu' st).mp hok'
+  rw [hp] at hq; cases hq
+  rw [hp'] at hq'; cases hq'
+  have hlen' : ((apdu'.drop p'.macOff).take 8).length = 8 := by rw [← htag]; exact hlen
+  rw [hlen, mac2_take8] at h1
+  rw [hlen', mac2_take8] at h1'
+  rw [← h1, ← h1', htag]
+
+/-- the same for responses: ERR_OK ⇔ structure ∧ even counter ∧ tag = belt-mac(key1, received RDF-field ‖ SW1 SW2) -/
+theorem respUnwrap_ok_iff (C : Cipher) (apdu : Bytes) (st : SmSt) :
+    (smRespUnwrap C apdu st).1 = .ok ↔
+      ∃ p, smRespParse apdu = .ok p ∧ ctrParity st = 0 ∧
+        (apdu.drop p.macOff).take 8 =
+          (mac2 C st.key1 (apdu.take p.c1) (apdu.drop (apdu.length - 2))).take ((apdu.drop p.macOff).take 8).length := by
+  rw [smRespUnwrap_code']
+  cases hp : smRespParse apdu with
+  | error e =>
+    have := smRespParse_err hp
+    simp only [reduceCtorEq, false_and, exists_false, iff_false]
+    rcases this with rfl | rfl <;> simp
+  | ok p =>
+    obtain ⟨a, b, h2⟩ := last2_of_len (by have := smRespParse_ok_len hp; omega : 2 ≤ apdu.length)
+    have hle : ((apdu.drop p.macOff).take 8).length ≤ 8 := by simp only [List.length_take]; omega
+    have hiff := mac2V_iff C st.key1 (apdu.take p.c1) (apdu.drop (apdu.length - 2)) _ hle
+    simp only [Except.ok.injEq, exists_eq_left']
+    by_cases h3 : ctrParity st ≠ 0
+    · rw [if_pos h3]
+      exact ⟨fun h => (by cases h), fun h => absurd h.1 h3⟩
+    · have h3' : ctrParity st = 0 := by simpa using h3
+      rw [if_neg h3]
+      cases hm : mac2V C st.key1 (apdu.take p.c1) (apdu.drop (apdu.length - 2)) ((apdu.drop p.macOff).take 8) with
+      | false =>
+        rw [if_pos rfl]
+        refine ⟨fun h => (by cases h), fun h => ?_⟩
+        have := hiff.mpr h.2
+        rw [hm] at this; cases this
+      | true =>
+        rw [if_neg (by simp)]
+        refine ⟨fun _ => ⟨h3', hiff.mp hm⟩, fun _ => ?_⟩
+        rw [h2]
 
 end Bee2V.C17
